@@ -35,7 +35,8 @@ def run(ctx):
                         named = rng.choice([None, rng.randrange(size)])
                         named2 = None if named is None else list(p2).index(sub[named])
                         # the same name must be requested in both permutations: index into perm1
-                        reqs.append(("c11_macro", [pop, list(sub), list(p2), named, rng.randrange(2)]))
+                        reqs.append(("c11_macro", [pop, list(sub), list(p2), named, rng.randrange(2),
+                                                   rng.choice(["same", "same", None, rng.randrange(size)])]))
             types = ["open", "bind11", "bind21", "branch-3way", "branch-4way"]
             for _ in range(20 if quick else 200):
                 re1 = [rng.randrange(6) for _ in range(rng.randrange(1, 4))]
@@ -86,6 +87,8 @@ def run(ctx):
                     diffs.append((k, mr, m, obs))
                 if not r[6]:
                     what = "the complexes view does not list exactly the members of the canonical form"
+                elif r[7] == "refused-none":
+                    what = "the same member set requested again was refused without naming the existing macrostate"
                 elif not (r[3] and r[4] and r[5]):
                     what = f"two permutations of the members denote different macrostates (same object: {r[3]}, same canonical form: {r[4]}, same name: {r[5]})"
                 elif obs[3] != len(set(rq[1][1])):
@@ -94,8 +97,14 @@ def run(ctx):
                 obs = r[1]
                 if m != obs:
                     diffs.append((k, mr, m, obs))
+                keys = {n: k_ for k_, n in r[0]}
+                want_re = sorted((keys[r[0][i][1]], r[0][i][1]) for i in rq[1][2])
+                want_pr = sorted((keys[r[0][i][1]], r[0][i][1]) for i in rq[1][3])
                 if not r[2]:
                     what = "two permutations of the reactants/products denote different reactions"
+                elif [n for _, n in want_re] != obs[2] or [n for _, n in want_pr] != obs[3]:
+                    what = (f"reactants/products listed as {obs[2]} -> {obs[3]}, canonical order is "
+                            f"{[n for _, n in want_re]} -> {[n for _, n in want_pr]}")
                 elif r[3] != [len(rq[1][2]), len(rq[1][3])]:
                     what = f"arity {r[3]} for {len(rq[1][2])} reactants and {len(rq[1][3])} products"
             if what:
